@@ -30,17 +30,26 @@ end
 /-! ### key equality -/
 
 theorem keyEq_symm (a b : V) : keyEq a b = keyEq b a := by
-  cases a <;> cases b <;> simp [keyEq, Bool.beq_comm, eq_comm] <;>
-    first | rfl | (rw [Bool.beq_comm]) | (rw [eq_comm]) | skip
+  unfold keyEq
+  cases ckey a <;> cases ckey b <;> simp [eq_comm]
 
 theorem keyEq_refl {k : V} (hk : hashable k = true) : keyEq k k = true := by
-  cases k <;> simp [keyEq, hashable] at hk ⊢
+  unfold hashable at hk
+  unfold keyEq
+  cases h : ckey k with
+  | none => simp [h] at hk
+  | some x => simp
 
-theorem keyEq_idKey (n : Nat) : keyEq (idKey n) (idKey n) = true := by simp [idKey, keyEq]
+theorem keyEq_trans (a b c : V) (h1 : keyEq a b = true) (h2 : keyEq b c = true) : keyEq a c = true := by
+  unfold keyEq at h1 h2 ⊢
+  cases ha : ckey a <;> cases hb : ckey b <;> cases hc : ckey c <;> simp [ha, hb, hc] at h1 h2 ⊢
+  exact h1.trans h2
 
-theorem keyEq_obj (n : Nat) : keyEq (.obj n) (.obj n) = true := by simp [keyEq]
+theorem keyEq_idKey (n : Nat) : keyEq (idKey n) (idKey n) = true := by simp [idKey, keyEq, ckey, skey]
 
-theorem keyEq_id_obj (n m : Nat) : keyEq (idKey n) (.obj m) = false := by simp [idKey, keyEq]
+theorem keyEq_obj (n : Nat) : keyEq (.obj n) (.obj n) = true := by simp [keyEq, ckey, skey]
+
+theorem keyEq_id_obj (n m : Nat) : keyEq (idKey n) (.obj m) = false := by simp [idKey, keyEq, ckey, skey]
 
 /-! ### dict primitives -/
 
@@ -178,7 +187,7 @@ def stateOf : Agg → List V → V
   | .first, _ => .stop
   | .max, its => pyMax its
   | .min, its => pyMin its
-  | .avg, its => .list [.int ((its.map intOf).sum), .int its.length]
+  | .avg, its => .list [.float (fsum its), .int its.length]
   | .sample size tbl, its => .list [.int its.length, .list (refSample size tbl its).2]
   | a, its => refAgg a its
 
@@ -198,7 +207,7 @@ def treeOf : GSpec → List V → List (V × V)
     if its.isEmpty then [] else [(.obj oid, .list [.int its.length, .dict (treeOf sub its)])]
   | .dict id _ key sub, its =>
     if its.isEmpty then []
-    else (idKey id, .dict ((buckets key its).map (fun b => (b.1, valOfC true sub b.2)))) ::
+    else (idKey id, .dict ((buckets key its).map (fun b => (b.1, implOf sub b.2)))) ::
       (buckets key its).map (fun b => (b.1, V.dict (treeOf sub b.2)))
   | _, _ => []
 
@@ -228,23 +237,13 @@ theorem aggOk_subset {a : Agg} {xs ys : List V} (h : ∀ i ∈ ys, i ∈ xs) (hx
   case unbound => exact isEmpty_subset h hx
   all_goals first | exact all_subset h hx | rfl
 
-theorem wfRun_subset : ∀ (s : GSpec) {xs ys : List V}, (∀ i ∈ ys, i ∈ xs) → wfRun s xs = true → wfRun s ys = true
-  | .agg _ a, _, _, h, hx => aggOk_subset h hx
-  | .fn _, _, _, h, hx => all_subset h hx
-  | .list _ _, _, _, h, hx => all_subset h hx
-  | .limit _ _ sub, _, _, h, hx => wfRun_subset sub h hx
-  | .nested _, _, _, h, hx => all_subset h hx
-  | .dict _ _ _ sub, _, _, h, hx => by
-    simp only [wfRun, Bool.and_eq_true] at hx ⊢
-    exact ⟨all_subset h hx.1, wfRun_subset sub h hx.2⟩
-
 theorem slotApart_subset : ∀ (s : GSpec) {xs ys : List V}, (∀ i ∈ ys, i ∈ xs) →
     slotApart s xs = true → slotApart s ys = true
   | .agg .., _, _, _, _ => rfl
   | .fn _, _, _, _, _ => rfl
   | .list .., _, _, _, _ => rfl
   | .limit _ _ sub, _, _, h, hx => slotApart_subset sub h hx
-  | .nested _, _, _, h, hx => all_subset h hx
+  | .nested .., _, _, h, hx => all_subset h hx
   | .dict _ _ _ sub, _, _, h, hx => by
     simp only [slotApart, Bool.and_eq_true] at hx ⊢
     exact ⟨all_subset h hx.1, slotApart_subset sub h hx.2⟩
@@ -257,7 +256,7 @@ theorem noSkipBelow_subset : ∀ (b : Bool) (s : GSpec) {xs ys : List V}, (∀ i
     simp only [noSkipBelow, Bool.or_eq_true] at hx ⊢
     exact hx.imp id (all_subset h)
   | b, .limit _ _ sub, _, _, h, hx => noSkipBelow_subset b sub h hx
-  | b, .nested _, _, _, h, hx => by
+  | b, .nested .., _, _, h, hx => by
     simp only [noSkipBelow, Bool.and_eq_true, Bool.or_eq_true] at hx ⊢
     exact ⟨hx.1.imp (isEmpty_subset h) id, all_subset h hx.2⟩
   | _, .dict _ _ _ sub, _, _, h, hx => noSkipBelow_subset true sub h hx
@@ -268,20 +267,6 @@ structure Hyp (b : Bool) (s : GSpec) (its : List V) : Prop where
   wf : wfRun s its = true
   sa : slotApart s its = true
   ns : noSkipBelow b s its = true
-
-theorem Hyp.subset {b : Bool} {s : GSpec} {xs ys : List V} (h : Hyp b s xs) (hs : ∀ i ∈ ys, i ∈ xs) :
-    Hyp b s ys :=
-  ⟨wfRun_subset s hs h.wf, slotApart_subset s hs h.sa, noSkipBelow_subset b s hs h.ns⟩
-
-theorem Hyp.sub_dict {b : Bool} {id kid : Nat} {key : Fn} {sub : GSpec} {its : List V}
-    (h : Hyp b (.dict id kid key sub) its) : Hyp true sub its := by
-  have hwf := h.wf
-  have hsa := h.sa
-  have hns := h.ns
-  simp only [wfRun, Bool.and_eq_true] at hwf
-  simp only [slotApart, Bool.and_eq_true] at hsa
-  simp only [noSkipBelow] at hns
-  exact ⟨hwf.2, hsa.2, hns⟩
 
 theorem Hyp.sub_limit {b : Bool} {oid n : Nat} {sub : GSpec} {its : List V}
     (h : Hyp b (.limit oid n sub) its) : Hyp b sub its := ⟨h.wf, h.sa, h.ns⟩
@@ -322,15 +307,9 @@ theorem pyMax_mem (y : V) (ys : List V) : pyMax (y :: ys) ∈ y :: ys :=
 theorem pyMin_mem (y : V) (ys : List V) : pyMin (y :: ys) ∈ y :: ys :=
   foldl_pick_mem (fun m z => pyLt z m == some true) ys y
 
-theorem pyLt_some_of_int {a b : V} (ha : isIntLike a = true) (hb : isIntLike b = true) :
+theorem pyLt_some_of_num {a b : V} (ha : isNum a = true) (hb : isNum b = true) :
     ∃ r, pyLt a b = some r := by
-  unfold isIntLike at ha hb
-  cases ha' : asInt a with
-  | none => simp [ha'] at ha
-  | some x =>
-    cases hb' : asInt b with
-    | none => simp [hb'] at hb
-    | some y => exact ⟨decide (x < y), by simp [pyLt, ha', hb']⟩
+  cases a <;> cases b <;> simp [isNum, toFBits, asInt, pyLt] at ha hb ⊢
 
 theorem pyLt_some_of_str {a b : V} (ha : isStr a = true) (hb : isStr b = true) :
     ∃ r, pyLt a b = some r := by
@@ -339,23 +318,40 @@ theorem pyLt_some_of_str {a b : V} (ha : isStr a = true) (hb : isStr b = true) :
   rename_i s1 s2
   exact ⟨decide (s1 < s2), by simp [pyLt, asInt]⟩
 
-theorem pyLt_some_of_ok {xs : List V} (h : (xs.all isIntLike || xs.all isStr) = true) {a b : V}
+theorem pyLt_some_of_ok {xs : List V} (h : (xs.all isNum || xs.all isStr) = true) {a b : V}
     (ha : a ∈ xs) (hb : b ∈ xs) : ∃ r, pyLt a b = some r := by
   simp only [Bool.or_eq_true, List.all_eq_true] at h
   rcases h with h | h
-  · exact pyLt_some_of_int (h a ha) (h b hb)
+  · exact pyLt_some_of_num (h a ha) (h b hb)
   · exact pyLt_some_of_str (h a ha) (h b hb)
+
+theorem numAdd_some {a b : V} (ha : isNum a = true) (hb : isNum b = true) :
+    ∃ r, numAdd a b = some r ∧ isNum r = true := by
+  cases a <;> cases b <;> simp [isNum, toFBits, asInt, numAdd] at ha hb ⊢
+
+theorem sumFold_snoc (vs : List V) (v : V) :
+    sumFold (vs ++ [v]) = (numAdd (sumFold vs) v).getD (sumFold vs) := by
+  simp [sumFold, List.foldl_append]
+
+theorem sumFold_num : ∀ vs : List V, isNum (sumFold vs) = true := by
+  intro vs
+  induction vs using snoc_induction with
+  | h0 => rfl
+  | hs vs v ih =>
+    rw [sumFold_snoc]
+    cases h : numAdd (sumFold vs) v with
+    | none => simpa using ih
+    | some r =>
+      simp only [Option.getD_some]
+      revert h
+      generalize sumFold vs = a at ih ⊢
+      cases a <;> cases v <;> simp [isNum, toFBits, asInt, numAdd] at ih ⊢ <;> (intro h; subst h; simp [toFBits, asInt])
+
+theorem fsum_snoc (its : List V) (x : V) : fsum (its ++ [x]) = faddBits (fsum its) ((toFBits x).getD 0) := by
+  simp [fsum, List.foldl_append]
 
 theorem dget_single (k v : V) (hk : keyEq k k = true) : dget [(k, v)] k = some v := by simp [dget, hk]
 theorem dset_single (k v w : V) (hk : keyEq k k = true) : dset [(k, v)] k w = [(k, w)] := by simp [dset, hk]
-
-theorem intOf_of_asInt {v : V} {i : Int} (h : asInt v = some i) : intOf v = i := by simp [intOf, h]
-
-theorem asInt_of_intLike {v : V} (h : isIntLike v = true) : asInt v = some (intOf v) := by
-  unfold isIntLike at h
-  cases hv : asInt v with
-  | none => simp [hv] at h
-  | some i => simp [intOf, hv]
 
 theorem refSample_snoc (size : Nat) (tbl : List Nat) (its : List V) (x : V) :
     refSample size tbl (its ++ [x]) = sampleStep size tbl (refSample size tbl its) x := by
@@ -408,14 +404,16 @@ theorem aggStep_spec (oid : Nat) (a : Agg) (its : List V) (x : V)
         if_false, hne, stateOf, dget_single _ _ hko, dset_single _ _ _ hko, refAgg, pyMin_snoc, hr]
       cases r <;> simp
   | avg =>
-    have hx : asInt x = some (intOf x) := by
-      simp only [aggOk, List.all_append, Bool.and_eq_true, List.all_cons, List.all_nil, Bool.and_true] at hok
-      exact asInt_of_intLike hok.2
+    simp only [aggOk, List.all_append, Bool.and_eq_true, List.all_cons, List.all_nil, Bool.and_true] at hok
+    obtain ⟨bx, hx⟩ := Option.isSome_iff_exists.mp (show (toFBits x).isSome = true from hok.2)
     cases its with
-    | nil => simp [aggStep, aggTree, aggHasState, dget, dset, stateOf, refAgg, hx]
+    | nil => simp [aggStep, aggTree, aggHasState, dget, dset, stateOf, refAgg, hx, fsum]
     | cons y ys =>
-      simp [aggStep, aggTree, aggHasState, hne, stateOf, dget_single _ _ hko, dset_single _ _ _ hko, refAgg, hx,
-        Int.toNat_natCast, List.sum_append, Int.natCast_add, Int.add_assoc]
+      have hl : ((y :: ys).length : Int).toNat = (y :: ys).length := Int.toNat_natCast _
+      simp only [aggStep, aggTree, aggHasState, List.isEmpty_cons, Bool.false_eq_true, Bool.not_true, Bool.or_self,
+        if_false, hne, stateOf, dget_single _ _ hko, dset_single _ _ _ hko, refAgg, hx, hl, fsum_snoc,
+        Option.getD_some]
+      simp
   | count =>
     cases its with
     | nil => simp [aggStep, aggTree, aggHasState, dget, dset, stateOf, refAgg, asInt]
@@ -444,13 +442,19 @@ theorem aggStep_spec (oid : Nat) (a : Agg) (its : List V) (x : V)
   | sum f =>
     simp only [aggOk, List.all_append, Bool.and_eq_true, List.all_cons, List.all_nil, Bool.and_true] at hok
     have hap := apply_of_ok hok.2.1
-    have hx := asInt_of_intLike hok.2.2
-    have h0 : ∀ i : Int, asInt (.int i) = some i := fun _ => rfl
+    obtain ⟨r, hr, _⟩ := numAdd_some (sumFold_num (its.map f.val)) hok.2.2
+    have hrefl : sumFold (its.map f.val ++ [f.val x]) = r := by rw [sumFold_snoc, hr]; rfl
     cases its with
-    | nil => simp [aggStep, aggTree, aggHasState, dget, dset, stateOf, refAgg, hap, hx, h0]
+    | nil =>
+      have hr0 : numAdd (V.int 0) (f.val x) = some r := by simpa [sumFold] using hr
+      have hrefl' : sumFold [f.val x] = r := by simpa using hrefl
+      simp [aggStep, aggTree, aggHasState, dget, dset, stateOf, refAgg, hap, hr0, hrefl']
     | cons y ys =>
-      simp [aggStep, aggTree, aggHasState, hne, stateOf, dget_single _ _ hko, dset_single _ _ _ hko, refAgg, hap, hx, h0,
-        List.sum_append, Int.add_assoc]
+      have hrefl' : sumFold (f.val y :: (ys.map f.val ++ [f.val x])) = r := by simpa using hrefl
+      have hr' : numAdd (sumFold (f.val y :: List.map f.val ys)) (f.val x) = some r := by simpa using hr
+      simp only [aggStep, aggTree, aggHasState, List.isEmpty_cons, Bool.false_eq_true, Bool.not_true, Bool.or_self,
+        if_false, hne, stateOf, dget_single _ _ hko, dset_single _ _ _ hko, refAgg, hap, Option.getD_some, hr,
+        List.map_append, List.map_cons, List.map_nil, List.cons_append, hrefl', hr']
   | flatten f =>
     simp only [aggOk, List.all_append, Bool.and_eq_true, List.all_cons, List.all_nil, Bool.and_true] at hok
     have hap := apply_of_ok hok.2.1
@@ -574,6 +578,125 @@ theorem bucketOf_of_not_bhas {bs : List (V × List V)} {k : V} (h : bhas bs k = 
     obtain ⟨k', its⟩ := b
     simp only [bhas, Bool.or_eq_false_iff] at h
     simp [bucketOf, h.1, ih h.2]
+
+/-! ### well-typedness (per bucket) is inherited by prefixes of the run -/
+
+/-- every bucket survives `addTo`, possibly extended by the new item -/
+theorem addTo_extends (bs : List (V × List V)) (k x : V) :
+    ∀ b ∈ bs, ∃ b' ∈ addTo bs k x, ∃ t, b'.2 = b.2 ++ t := by
+  induction bs with
+  | nil => intro b hb; simp at hb
+  | cons b0 bs ih =>
+    obtain ⟨k', its⟩ := b0
+    intro b hb
+    by_cases hk : keyEq k' k = true
+    · simp only [addTo, hk, if_true]
+      rcases List.mem_cons.mp hb with rfl | hb
+      · exact ⟨(k', its ++ [x]), List.mem_cons_self, [x], rfl⟩
+      · exact ⟨b, List.mem_cons_of_mem _ hb, [], by simp⟩
+    · have hk' : keyEq k' k = false := by simpa using hk
+      simp only [addTo, hk', Bool.false_eq_true, if_false]
+      rcases List.mem_cons.mp hb with rfl | hb
+      · exact ⟨(k', its), List.mem_cons_self, [], by simp⟩
+      · obtain ⟨b', hb', t, ht⟩ := ih b hb
+        exact ⟨b', List.mem_cons_of_mem _ hb', t, ht⟩
+
+theorem addTo_has_new (bs : List (V × List V)) (k x : V) : ∃ b ∈ addTo bs k x, b.2 = bucketOf bs k ++ [x] := by
+  induction bs with
+  | nil => exact ⟨(k, [x]), by simp [addTo], by simp [bucketOf]⟩
+  | cons b0 bs ih =>
+    obtain ⟨k', its⟩ := b0
+    by_cases hk : keyEq k' k = true
+    · exact ⟨(k', its ++ [x]), by simp [addTo, hk], by simp [bucketOf, hk]⟩
+    · have hk' : keyEq k' k = false := by simpa using hk
+      obtain ⟨b, hb, hb2⟩ := ih
+      exact ⟨b, by simp [addTo, hk', hb], by simpa [bucketOf, hk'] using hb2⟩
+
+theorem buckets_extend (key : Fn) (xs : List V) :
+    ∀ ys, ∀ b ∈ buckets key xs, ∃ b' ∈ buckets key (xs ++ ys), ∃ t, b'.2 = b.2 ++ t := by
+  intro ys
+  induction ys using snoc_induction with
+  | h0 => intro b hb; exact ⟨b, by simpa using hb, [], by simp⟩
+  | hs ys y ih =>
+    intro b hb
+    obtain ⟨b1, hb1, t1, ht1⟩ := ih b hb
+    rw [← List.append_assoc, buckets_snoc, bucketStep_eq]
+    by_cases hsk : isSkip (key.val y) = true
+    · simp only [hsk, if_true]; exact ⟨b1, hb1, t1, ht1⟩
+    · have hsk' : isSkip (key.val y) = false := by simpa using hsk
+      simp only [hsk', Bool.false_eq_true, if_false]
+      obtain ⟨b2, hb2, t2, ht2⟩ := addTo_extends _ (key.val y) y b1 hb1
+      exact ⟨b2, hb2, t1 ++ t2, by rw [ht2, ht1, List.append_assoc]⟩
+
+theorem wfRun_prefix : ∀ (s : GSpec) (xs ys : List V), wfRun s (xs ++ ys) = true → wfRun s xs = true
+  | .agg _ a, xs, ys, hx => aggOk_subset (fun i hi => List.mem_append_left _ hi) hx
+  | .fn _, xs, ys, hx => all_subset (fun i hi => List.mem_append_left _ hi) hx
+  | .list _ _, xs, ys, hx => all_subset (fun i hi => List.mem_append_left _ hi) hx
+  | .limit _ _ sub, xs, ys, hx => wfRun_prefix sub xs ys hx
+  | .nested .., xs, ys, hx => all_subset (fun i hi => List.mem_append_left _ hi) hx
+  | .dict _ _ key sub, xs, ys, hx => by
+    simp only [wfRun, Bool.and_eq_true] at hx ⊢
+    refine ⟨all_subset (fun i hi => List.mem_append_left _ hi) hx.1, ?_⟩
+    have h2 := hx.2
+    rw [List.all_eq_true] at h2 ⊢
+    intro b hb
+    obtain ⟨b', hb', t, ht⟩ := buckets_extend key xs ys b hb
+    have := h2 b' hb'
+    rw [ht] at this
+    exact wfRun_prefix sub b.2 t this
+
+theorem Hyp.init {b : Bool} {s : GSpec} {xs ys : List V} (h : Hyp b s (xs ++ ys)) : Hyp b s xs :=
+  ⟨wfRun_prefix s xs ys h.wf, slotApart_subset s (fun i hi => List.mem_append_left _ hi) h.sa,
+    noSkipBelow_subset b s (fun i hi => List.mem_append_left _ hi) h.ns⟩
+
+theorem Hyp.init_snoc {b : Bool} {s : GSpec} {done : List V} {x : V} {xs : List V}
+    (h : Hyp b s (done ++ x :: xs)) : Hyp b s (done ++ [x]) := by
+  have : done ++ x :: xs = (done ++ [x]) ++ xs := by simp
+  rw [this] at h
+  exact h.init
+
+/-! ### key equality is an equivalence; the bucket of `k` is the filter by `k` -/
+
+theorem bucketOf_addTo_gen (bs : List (V × List V)) (kx k x : V) :
+    bucketOf (addTo bs kx x) k = if keyEq kx k then bucketOf bs k ++ [x] else bucketOf bs k := by
+  induction bs with
+  | nil => by_cases h : keyEq kx k = true <;> simp [addTo, bucketOf, h]
+  | cons b0 bs ih =>
+    obtain ⟨k', its⟩ := b0
+    by_cases h1 : keyEq k' kx = true
+    · simp only [addTo, h1, if_true, bucketOf]
+      by_cases h2 : keyEq kx k = true
+      · simp [h2, keyEq_trans _ _ _ h1 h2]
+      · have h3 : keyEq k' k = false := by
+          cases h3 : keyEq k' k with
+          | false => rfl
+          | true =>
+            exact absurd (keyEq_trans _ _ _ (by rw [keyEq_symm]; exact h1) h3) h2
+        simp [h2, h3]
+    · have h1' : keyEq k' kx = false := by simpa using h1
+      simp only [addTo, h1', Bool.false_eq_true, if_false, bucketOf, ih]
+      by_cases h3 : keyEq k' k = true
+      · have h2 : keyEq kx k = false := by
+          cases h2 : keyEq kx k with
+          | false => rfl
+          | true =>
+            exact absurd (keyEq_trans _ _ _ h3 (by rw [keyEq_symm]; exact h2)) h1
+        simp [h3, h2]
+      · simp [h3]
+
+/-- **the bucket of `k` holds exactly the items whose key equals `k`, in encounter order** -/
+theorem bucketOf_buckets (key : Fn) (k : V) : ∀ its, bucketOf (buckets key its) k = routed key k its := by
+  intro its
+  induction its using snoc_induction with
+  | h0 => rfl
+  | hs its x ih =>
+    rw [buckets_snoc, bucketStep_eq]
+    by_cases hs : isSkip (key.val x) = true
+    · simp [hs, ih, routed, List.filter_append]
+    · have hs' : isSkip (key.val x) = false := by simpa using hs
+      simp only [hs', Bool.false_eq_true, if_false, bucketOf_addTo_gen, ih, routed, List.filter_append,
+        List.filter_cons, List.filter_nil, Bool.not_false, Bool.true_and]
+      by_cases hk : keyEq (key.val x) k = true <;> simp [hk]
 
 /-! ### STOP events -/
 
@@ -713,27 +836,34 @@ theorem eventFree_leaf_list (id : Nat) (f : Fn) :
 
 /-! ### the cut -/
 
-theorem cutFrom_prefix (s : GSpec) : ∀ (xs done : List V), ∃ r, cutFrom s done xs = done ++ r ∧ ∀ i ∈ r, i ∈ xs := by
+theorem cutFrom_prefix (s : GSpec) : ∀ (xs done : List V), ∃ r t, xs = r ++ t ∧ cutFrom s done xs = done ++ r := by
   intro xs
   induction xs with
-  | nil => intro done; exact ⟨[], by simp [cutFrom], by simp⟩
+  | nil => intro done; exact ⟨[], [], rfl, by simp [cutFrom]⟩
   | cons x xs ih =>
     intro done
     simp only [cutFrom]
     split
-    · exact ⟨[], by simp, by simp⟩
-    · obtain ⟨r, hr, hm⟩ := ih (done ++ [x])
-      refine ⟨x :: r, by rw [hr]; simp, ?_⟩
-      intro i hi
-      rcases List.mem_cons.mp hi with rfl | hi
-      · exact List.mem_cons_self
-      · exact List.mem_cons_of_mem _ (hm i hi)
+    · exact ⟨[], x :: xs, rfl, by simp⟩
+    · obtain ⟨r, t, hx, hr⟩ := ih (done ++ [x])
+      exact ⟨x :: r, t, by rw [hx]; rfl, by rw [hr]; simp⟩
 
-theorem cutEvent_subset (s : GSpec) (its : List V) : ∀ i ∈ cutEvent s its, i ∈ its := by
-  obtain ⟨r, hr, hm⟩ := cutFrom_prefix s its []
-  intro i hi
-  rw [cutEvent, hr] at hi
-  exact hm i (by simpa using hi)
+/-- the cut is a prefix of the run -/
+theorem cutEvent_sublist (s : GSpec) (its : List V) : List.Sublist (cutEvent s its) its := by
+  obtain ⟨r, t, hx, hr⟩ := cutFrom_prefix s its []
+  rw [cutEvent, hr, List.nil_append]
+  conv => rhs; rw [hx]
+  exact List.sublist_append_left r t
+
+theorem cutEvent_subset (s : GSpec) (its : List V) : ∀ i ∈ cutEvent s its, i ∈ its :=
+  fun _ hi => (cutEvent_sublist s its).subset hi
+
+theorem Hyp.of_cut {b : Bool} {s : GSpec} {its : List V} (h : Hyp b s its) : Hyp b s (cutEvent s its) := by
+  obtain ⟨r, t, hx, hr⟩ := cutFrom_prefix s its []
+  have hc : cutEvent s its = r := by rw [cutEvent, hr]; simp
+  rw [hc]
+  rw [hx] at h
+  exact h.init
 
 theorem cutFrom_eventFree (s : GSpec) : ∀ (xs done : List V), eventFree s done = true →
     eventFree s (cutFrom s done xs) = true := by
@@ -769,9 +899,9 @@ theorem cutEvent_of_eventFree {s : GSpec} {its : List V} (h : eventFree s its = 
 /-! ### the reference on runs without STOP event -/
 
 /-- without STOP event the reference of a dict level is the plain bucket map -/
-theorem valOfC_dict (c : Bool) (id kid : Nat) (key : Fn) (sub : GSpec) (its : List V)
+theorem implOf_dict (id kid : Nat) (key : Fn) (sub : GSpec) (its : List V)
     (h : eventFree (.dict id kid key sub) its = true) :
-    valOfC c (.dict id kid key sub) its = .dict ((buckets key its).map (fun b => (b.1, valOfC c sub b.2))) := by
+    implOf (.dict id kid key sub) its = .dict ((buckets key its).map (fun b => (b.1, implOf sub b.2))) := by
   have hcut : cutStop key its = its := cutStop_all (eventFree_dict_keys id kid key sub its h)
   have hinv := buckets_inv key (Q := fun _ => True) its (fun _ _ _ => trivial)
   have hfil : (buckets key its).filter (bucketHasVal sub) = buckets key its := by
@@ -787,16 +917,16 @@ theorem valOfC_dict (c : Bool) (id kid : Nat) (key : Fn) (sub : GSpec) (its : Li
       have : eventFree sub ([] ++ [y] ++ ys) = true := by simpa using hef
       simp only [eventFree, eventFreeFrom, List.nil_append, Bool.and_eq_true, Bool.not_eq_true'] at hef
       simp [hasVal, hef.1]
-  simp only [valOfC, bucketize, hcut]
+  simp only [implOf, bucketize, hcut]
   rw [show List.foldl (bucketStep key) [] its = buckets key its from rfl, hfil]
 
-theorem valOfC_limit (c : Bool) (oid n : Nat) (sub : GSpec) (its : List V) (hne : its ≠ []) (hlen : its.length ≤ n) :
-    valOfC c (.limit oid n sub) its = valOfC c sub its := by
+theorem implOf_limit (oid n : Nat) (sub : GSpec) (its : List V) (hne : its ≠ []) (hlen : its.length ≤ n) :
+    implOf (.limit oid n sub) its = implOf sub its := by
   have hn : (n == 0) = false := by
     cases its with
     | nil => exact absurd rfl hne
     | cons y ys => simp at hlen ⊢; omega
-  simp [valOfC, hn, List.take_of_length_le hlen]
+  simp [implOf, hn, List.take_of_length_le hlen]
 
 /-! ### results are never the sentinels -/
 
@@ -821,14 +951,16 @@ theorem refAgg_not_sentinel (a : Agg) (y : V) (ys : List V) (hok : aggOk a (y ::
     have hm := pyMax_mem y ys
     simp only [aggOk, Bool.or_eq_true, List.all_eq_true] at hok
     rcases hok with h | h <;> (have := h _ hm; revert this; simp only [refAgg]; cases pyMax (y :: ys) <;>
-      simp [isIntLike, isStr, asInt, isStop, isSkip])
+      simp [isNum, toFBits, isStr, asInt, isStop, isSkip])
   | min =>
     have hm := pyMin_mem y ys
     simp only [aggOk, Bool.or_eq_true, List.all_eq_true] at hok
     rcases hok with h | h <;> (have := h _ hm; revert this; simp only [refAgg]; cases pyMin (y :: ys) <;>
-      simp [isIntLike, isStr, asInt, isStop, isSkip])
+      simp [isNum, toFBits, isStr, asInt, isStop, isSkip])
   | avg => simp [refAgg, avgDiv, isStop, isSkip]
-  | sum f => simp [refAgg, isStop, isSkip]
+  | sum f =>
+    have := sumFold_num ((y :: ys).map f.val)
+    revert this; simp only [refAgg]; cases sumFold ((y :: ys).map f.val) <;> simp [isNum, toFBits, asInt, isStop, isSkip]
   | count => simp [refAgg, isStop, isSkip]
   | clsCount => simp [refAgg, isStop, isSkip]
   | sample size tbl => simp [refAgg, isStop, isSkip]
@@ -844,7 +976,7 @@ theorem getLast?_ne_nil {its : List V} (h : its ≠ []) : ∃ x, its.getLast? = 
   | some x => exact ⟨x, rfl, List.mem_of_getLast? hl⟩
 
 /-- the hypotheses of a nested Group's own run (over the elements of the item) -/
-theorem Hyp.inner {b : Bool} {g : GSpec} {its : List V} (h : Hyp b (.nested g) its) {x : V} (hx : x ∈ its) :
+theorem Hyp.inner {b : Bool} {g : GSpec} {its : List V} {gid : Nat} (h : Hyp b (.nested gid g) its) {x : V} (hx : x ∈ its) :
     isSeqV x = true ∧ Hyp false g ((iterOf x).getD []) := by
   have hwf := h.wf
   have hsa := h.sa
@@ -856,32 +988,32 @@ theorem Hyp.inner {b : Bool} {g : GSpec} {its : List V} (h : Hyp b (.nested g) i
 
 /-- a spec that cannot yield SKIP (no bare function at the end of a Limit / nested chain) does not -/
 theorem noSkip_of_not_canSkip : ∀ (s : GSpec) (its : List V), canSkip s = false → its ≠ [] → Hyp false s its →
-    eventFree s its = true → isSkip (valOfC true s its) = false
+    eventFree s its = true → isSkip (implOf s its) = false
   | .agg oid a, its, _, hne, h, _ => by
     cases its with
     | nil => exact absurd rfl hne
     | cons y ys => exact (refAgg_not_sentinel a y ys h.wf).2
   | .fn f, _, hc, _, _, _ => by simp [canSkip] at hc
-  | .list _ f, _, _, _, _, _ => by simp [valOfC, isSkip]
-  | .dict id kid key sub, its, _, _, _, hef => by rw [valOfC_dict true id kid key sub its hef]; simp [isSkip]
+  | .list _ f, _, _, _, _, _ => by simp [implOf, isSkip]
+  | .dict id kid key sub, its, _, _, _, hef => by rw [implOf_dict id kid key sub its hef]; simp [isSkip]
   | .limit oid n sub, its, hc, hne, h, hef => by
     obtain ⟨hlen, hsub⟩ := eventFree_limit oid n sub its hef
-    rw [valOfC_limit true oid n sub its hne hlen]
+    rw [implOf_limit oid n sub its hne hlen]
     exact noSkip_of_not_canSkip sub its (by simpa [canSkip] using hc) hne h.sub_limit hsub
-  | .nested g, its, hc, hne, h, _ => by
+  | .nested _ g, its, hc, hne, h, _ => by
     obtain ⟨x, hx, hxm⟩ := getLast?_ne_nil hne
     have hin := (h.inner hxm).2
-    simp only [valOfC, hx, if_true, emptyOr]
+    simp only [implOf, hx, if_true, emptyOr]
     by_cases hemp : (cutEvent g ((iterOf x).getD [])).isEmpty = true
     · simp only [hemp, if_true]; exact (emptyOf_not_sentinel g).2
     · simp only [hemp, Bool.false_eq_true, if_false]
       exact noSkip_of_not_canSkip g _ (by simpa [canSkip] using hc) (by simpa using hemp)
-        (hin.subset (cutEvent_subset g _)) (cutEvent_eventFree g _)
+        (Hyp.of_cut hin) (cutEvent_eventFree g _)
 
 /-- below a key level (`b = true`) a result is neither STOP nor SKIP; at the top it is not STOP -/
 theorem valOf_not_sentinel : ∀ (s : GSpec) (b : Bool) (its : List V), its ≠ [] → Hyp b s its →
     eventFree s its = true →
-    isStop (valOfC true s its) = false ∧ (b = true → isSkip (valOfC true s its) = false)
+    isStop (implOf s its) = false ∧ (b = true → isSkip (implOf s its) = false)
   | .agg oid a, b, its, hne, h, _ => by
     cases its with
     | nil => exact absurd rfl hne
@@ -892,25 +1024,25 @@ theorem valOf_not_sentinel : ∀ (s : GSpec) (b : Bool) (its : List V), its ≠ 
     have hst := eventFree_leaf_fn f its hef
     have hcut : cutStop f its = its := cutStop_all hst
     obtain ⟨x, hx, hxm⟩ := getLast?_ne_nil hne
-    simp only [valOfC, hcut, hx]
+    simp only [implOf, hcut, hx]
     refine ⟨hst x hxm, ?_⟩
     intro hb
     have hns := h.ns
     simp only [noSkipBelow, hb, Bool.not_true, Bool.false_or, List.all_eq_true, Bool.not_eq_true'] at hns
     exact hns x hxm
-  | .list _ f, b, its, _, _, _ => by simp [valOfC, isStop, isSkip]
+  | .list _ f, b, its, _, _, _ => by simp [implOf, isStop, isSkip]
   | .limit oid n sub, b, its, hne, h, hef => by
     obtain ⟨hlen, hsub⟩ := eventFree_limit oid n sub its hef
-    rw [valOfC_limit true oid n sub its hne hlen]
+    rw [implOf_limit oid n sub its hne hlen]
     exact valOf_not_sentinel sub b its hne h.sub_limit hsub
   | .dict id kid key sub, b, its, _, _, hef => by
-    rw [valOfC_dict true id kid key sub its hef]; simp [isStop, isSkip]
-  | .nested g, b, its, hne, h, _ => by
+    rw [implOf_dict id kid key sub its hef]; simp [isStop, isSkip]
+  | .nested _ g, b, its, hne, h, _ => by
     obtain ⟨x, hx, hxm⟩ := getLast?_ne_nil hne
     have hin := (h.inner hxm).2
-    have hin' := hin.subset (cutEvent_subset g ((iterOf x).getD []))
+    have hin' : Hyp false g (cutEvent g ((iterOf x).getD [])) := Hyp.of_cut hin
     have hef' := cutEvent_eventFree g ((iterOf x).getD [])
-    simp only [valOfC, hx, if_true, emptyOr]
+    simp only [implOf, hx, if_true, emptyOr]
     by_cases hemp : (cutEvent g ((iterOf x).getD [])).isEmpty = true
     · simp only [hemp, if_true]
       exact ⟨(emptyOf_not_sentinel g).1, fun _ => (emptyOf_not_sentinel g).2⟩
@@ -930,13 +1062,13 @@ theorem valOf_not_sentinel : ∀ (s : GSpec) (b : Bool) (its : List V), its ≠ 
     would be told STOP by the spec, STOP -/
 def StepOK (s : GSpec) (its : List V) (x : V) : Prop :=
   (stopsAt s its x = false →
-    gstep s x (treeOf s its) = .ok (valOfC true s (its ++ [x]), treeOf s (its ++ [x]))) ∧
+    gstep s x (treeOf s its) = .ok (implOf s (its ++ [x]), treeOf s (its ++ [x]))) ∧
   (stopsAt s its x = true → ∃ t, gstep s x (treeOf s its) = .ok (.stop, t))
 
 /-- `ret` of Group.glomit after the items `its` -/
-def valTopC (s : GSpec) (its : List V) : V := emptyOr s (valOfC true s) its
+def valTopC (s : GSpec) (its : List V) : V := emptyOr s (implOf s) its
 
-theorem valTopC_snoc (s : GSpec) (its : List V) (x : V) : valTopC s (its ++ [x]) = valOfC true s (its ++ [x]) := by
+theorem valTopC_snoc (s : GSpec) (its : List V) (x : V) : valTopC s (its ++ [x]) = implOf s (its ++ [x]) := by
   simp [valTopC, emptyOr]
 
 /-- if every step behaves (`StepOK`), the loop of Group.glomit computes the reference of the
@@ -950,10 +1082,7 @@ theorem loop_exact (s : GSpec)
   | nil => intro done _ _; simp [loopWith, cutFrom]
   | cons x xs ih =>
     intro done h hef
-    have hx : Hyp false s (done ++ [x]) := h.subset (fun i hi => by
-      rcases List.mem_append.mp hi with h1 | h1
-      · exact List.mem_append_left _ h1
-      · exact List.mem_append_right _ (by simp at h1; simp [h1]))
+    have hx : Hyp false s (done ++ [x]) := h.init_snoc
     obtain ⟨h1, h2⟩ := hstep done x hx hef
     by_cases hs : stopsAt s done x = true
     · obtain ⟨t, ht⟩ := h2 hs
@@ -975,7 +1104,7 @@ theorem groupEval_of_step (s : GSpec)
 
 /-- the tree a key level holds, given its buckets -/
 def levelTree (id : Nat) (sub : GSpec) (bs : List (V × List V)) : List (V × V) :=
-  (idKey id, .dict (bs.map (fun b => (b.1, valOfC true sub b.2)))) :: bs.map (fun b => (b.1, V.dict (treeOf sub b.2)))
+  (idKey id, .dict (bs.map (fun b => (b.1, implOf sub b.2)))) :: bs.map (fun b => (b.1, V.dict (treeOf sub b.2)))
 
 theorem treeOf_dict (id kid : Nat) (key : Fn) (sub : GSpec) (its : List V) :
     treeOf (.dict id kid key sub) its = if its.isEmpty then [] else levelTree id sub (buckets key its) := rfl
@@ -1003,7 +1132,8 @@ theorem dict_both (id kid : Nat) (key : Fn) (sub : GSpec) (b : Bool) (its : List
   simp only [wfRun, Bool.and_eq_true, List.all_eq_true] at hwf
   simp only [slotApart, Bool.and_eq_true, List.all_eq_true, Bool.not_eq_true'] at hsa
   have hxm : x ∈ its ++ [x] := by simp
-  have hsubH : Hyp true sub (its ++ [x]) := h.sub_dict
+  have hsa2 : slotApart sub (its ++ [x]) = true := hsa.2
+  have hns2 : noSkipBelow true sub (its ++ [x]) = true := by have := h.ns; simpa only [noSkipBelow] using this
   have hkap := apply_of_ok (hwf.1 x hxm).1
   have hhash := (hwf.1 x hxm).2
   have hslotx : keyEq (idKey id) (key.val x) = false := hsa.1 x hxm
@@ -1018,16 +1148,26 @@ theorem dict_both (id kid : Nat) (key : Fn) (sub : GSpec) (b : Bool) (its : List
     | nil => simp [dhas, dget, dset, levelTree, buckets]
     | cons y ys => simp [dhas, dget, levelTree, keyEq_idKey]
   have hacc : subTree (levelTree id sub (buckets key its)) (idKey id) =
-      .ok ((buckets key its).map (fun b => (b.1, valOfC true sub b.2))) := by
+      .ok ((buckets key its).map (fun b => (b.1, implOf sub b.2))) := by
     simp [subTree, levelTree, dget, keyEq_idKey]
   have hmark := isMarked_levelTree id kid sub (buckets key its)
   -- the bucket of `x`
   have hbm : ∀ i ∈ bucketOf (buckets key its) (key.val x), i ∈ its :=
     bucketOf_mem (P := fun i => i ∈ its) _ _ (fun b hb => ⟨(hinv b hb).2.1, (hinv b hb).2.2⟩)
-  have hHb : Hyp true sub (bucketOf (buckets key its) (key.val x) ++ [x]) := hsubH.subset (snoc_subset hbm)
+  -- the items routed to the bucket of `x` (x itself included) are what `wfRun` speaks about
+  have hHb : isSkip (key.val x) = false →
+      Hyp true sub (bucketOf (buckets key its) (key.val x) ++ [x]) := by
+    intro hsk
+    have hkk : keyEq (key.val x) (key.val x) = true := keyEq_refl hhash
+    have hw : wfRun sub (bucketOf (buckets key its) (key.val x) ++ [x]) = true := by
+      have h2 := hwf.2
+      rw [buckets_snoc, bucketStep_eq] at h2
+      simp only [hsk, Bool.false_eq_true, if_false] at h2
+      obtain ⟨bn, hbn, hbn2⟩ := addTo_has_new (buckets key its) (key.val x) x
+      rw [← hbn2]; exact h2 bn hbn
+    exact ⟨hw, slotApart_subset sub (snoc_subset hbm) hsa2, noSkipBelow_subset true sub (snoc_subset hbm) hns2⟩
   have hefb : eventFree sub (bucketOf (buckets key its) (key.val x)) = true :=
     eventFree_bucketOf id kid key sub its (key.val x) hef
-  obtain ⟨hrec1, hrec2⟩ := hsub _ hHb hefb
   have hst : stopsAt (.dict id kid key sub) its x = (isStop (key.val x) ||
       (!(isSkip (key.val x)) && stopsAt sub (bucketOf (buckets key its) (key.val x)) x)) := rfl
   by_cases hskip : isSkip (key.val x) = true
@@ -1037,7 +1177,7 @@ theorem dict_both (id kid : Nat) (key : Fn) (sub : GSpec) (b : Bool) (its : List
     refine ⟨?_, ?_⟩
     · intro hs
       have hef' : eventFree (.dict id kid key sub) (its ++ [x]) = true := by rw [eventFree_snoc, hef, hs]; rfl
-      rw [valOfC_dict true id kid key sub (its ++ [x]) hef', treeOf_dict id kid key sub (its ++ [x])]
+      rw [implOf_dict id kid key sub (its ++ [x]) hef', treeOf_dict id kid key sub (its ++ [x])]
       rw [buckets_snoc, bucketStep_eq]
       simp only [gstep, htree1, hacc, hmark, hkap]
       simp [hskip, levelTree]
@@ -1050,8 +1190,10 @@ theorem dict_both (id kid : Nat) (key : Fn) (sub : GSpec) (b : Bool) (its : List
       simp [hskip', hstop]
     · have hnstop : isStop (key.val x) = false := by simpa using hstop
       have hkk : keyEq (key.val x) (key.val x) = true := keyEq_refl hhash
+      have hHb' := hHb hskip'
+      obtain ⟨hrec1, hrec2⟩ := hsub _ hHb' hefb
       -- `key not in acc`
-      have hfresh : dhas ((buckets key its).map (fun b => (b.1, valOfC true sub b.2))) (key.val x) =
+      have hfresh : dhas ((buckets key its).map (fun b => (b.1, implOf sub b.2))) (key.val x) =
           bhas (buckets key its) (key.val x) := by
         rw [dhas_eq, dget_map]; cases bhas (buckets key its) (key.val x) <;> rfl
       -- `tree[key]` after `if key not in acc: tree[key] = {}`
@@ -1073,19 +1215,19 @@ theorem dict_both (id kid : Nat) (key : Fn) (sub : GSpec) (b : Bool) (its : List
         have hef' : eventFree (.dict id kid key sub) (its ++ [x]) = true := by rw [eventFree_snoc, hef, hs]; rfl
         have hefb' : eventFree sub (bucketOf (buckets key its) (key.val x) ++ [x]) = true := by
           rw [eventFree_snoc, hefb, hsb]; rfl
-        rw [valOfC_dict true id kid key sub (its ++ [x]) hef', treeOf_dict id kid key sub (its ++ [x])]
+        rw [implOf_dict id kid key sub (its ++ [x]) hef', treeOf_dict id kid key sub (its ++ [x])]
         rw [buckets_snoc, bucketStep_eq]
         simp only [gstep, htree1, hacc, hmark, hkap]
         simp only [hskip', hnstop, hhash, Bool.false_eq_true, if_false, Bool.not_true, hslotx, Bool.false_and]
         rw [hfresh, hsubtree]
-        have hns := valOf_not_sentinel sub true _ (by simp) hHb hefb'
+        have hns := valOf_not_sentinel sub true _ (by simp) hHb' hefb'
         simp only [hrec1 hsb, hns.1, hns.2 rfl, Bool.false_eq_true, if_false]
         -- the two stores: the sub-tree back into its slot, the result into `acc`
         have htail : dset (if (!bhas (buckets key its) (key.val x)) = true
               then dset (levelTree id sub (buckets key its)) (key.val x) (.dict [])
               else levelTree id sub (buckets key its)) (key.val x)
               (.dict (treeOf sub (bucketOf (buckets key its) (key.val x) ++ [x]))) =
-            (idKey id, .dict ((buckets key its).map (fun b => (b.1, valOfC true sub b.2)))) ::
+            (idKey id, .dict ((buckets key its).map (fun b => (b.1, implOf sub b.2)))) ::
               (addTo (buckets key its) (key.val x) x).map (fun b => (b.1, V.dict (treeOf sub b.2))) := by
           have hm := dset_map (fun its => V.dict (treeOf sub its)) (buckets key its) (key.val x) x
           cases hb : bhas (buckets key its) (key.val x) with
@@ -1094,7 +1236,7 @@ theorem dict_both (id kid : Nat) (key : Fn) (sub : GSpec) (b : Bool) (its : List
           | true =>
             simp only [Bool.not_true, Bool.false_eq_true, if_false, levelTree, dset_cons_ne hslotx, hm]
         rw [htail]
-        have hacc' := dset_map (valOfC true sub) (buckets key its) (key.val x) x
+        have hacc' := dset_map (implOf sub) (buckets key its) (key.val x) x
         have hne : (its ++ [x]).isEmpty = false := by simp
         simp only [hacc', dset, keyEq_idKey, if_true, levelTree, hne, Bool.false_eq_true, if_false]
       · intro hs
@@ -1131,7 +1273,7 @@ theorem gstep_both : ∀ (s : GSpec) (b : Bool) (its : List V) (x : V), Hyp b s 
     eventFree s its = true → StepOK s its x
   | .agg oid a, b, its, x, h, _ => by
     refine ⟨fun hs => ?_, fun hs => ?_⟩
-    · simpa only [gstep, treeOf, valOfC] using aggStep_spec oid a its x hs h.wf
+    · simpa only [gstep, treeOf, implOf] using aggStep_spec oid a its x hs h.wf
     · have ha : a = .first := by cases a <;> simp [stopsAt] at hs ⊢
       subst ha
       have hne : its ≠ [] := by intro h0; subst h0; simp [stopsAt] at hs
@@ -1146,7 +1288,7 @@ theorem gstep_both : ∀ (s : GSpec) (b : Bool) (its : List V) (x : V), Hyp b s 
         rcases List.mem_append.mp hy with hm | hm
         · exact eventFree_leaf_fn f its hef y hm
         · simp at hm; subst hm; exact hs')
-      simp [gstep, treeOf, hap, valOfC, hcut]
+      simp [gstep, treeOf, hap, implOf, hcut]
     · have hs' : isStop (f.val x) = true := by simpa [stopsAt] using hs
       exact ⟨[], by simp [gstep, treeOf, hap, isStop_eq hs']⟩
   | .list id f, b, its, x, h, hef => by
@@ -1159,8 +1301,8 @@ theorem gstep_both : ∀ (s : GSpec) (b : Bool) (its : List V) (x : V), Hyp b s 
         rcases List.mem_append.mp hy with hm | hm
         · exact eventFree_leaf_list id f its hef y hm
         · simp at hm; subst hm; exact hns)
-      have hval : valOfC true (.list id f) (its ++ [x]) = .list (valsOf f (its ++ [x])) := by
-        simp [valOfC, hcut, valsOf]
+      have hval : implOf (.list id f) (its ++ [x]) = .list (valsOf f (its ++ [x])) := by
+        simp [implOf, hcut, valsOf]
       rw [hval, valsOf_snoc]
       cases its with
       | nil =>
@@ -1184,8 +1326,8 @@ theorem gstep_both : ∀ (s : GSpec) (b : Bool) (its : List V) (x : V), Hyp b s 
     · rw [hst] at hs
       simp only [Bool.or_eq_false_iff, decide_eq_false_iff_not, Nat.not_le] at hs
       have hcnt : ¬ ((its.length : Int) + 1 > (n : Int)) := by omega
-      have hv : valOfC true (.limit oid n sub) (its ++ [x]) = valOfC true sub (its ++ [x]) :=
-        valOfC_limit true oid n sub (its ++ [x]) (by simp) (by simp; omega)
+      have hv : implOf (.limit oid n sub) (its ++ [x]) = implOf sub (its ++ [x]) :=
+        implOf_limit oid n sub (its ++ [x]) (by simp) (by simp; omega)
       simp only [gstep, limit_unpack, hcnt, if_false, ih1 hs.2, limit_store, hv]
     · by_cases hge : n ≤ its.length
       · have hcnt : ((its.length : Int) + 1 > (n : Int)) := by omega
@@ -1196,13 +1338,13 @@ theorem gstep_both : ∀ (s : GSpec) (b : Bool) (its : List V) (x : V), Hyp b s 
         obtain ⟨t, ht⟩ := ih2 hsb
         simp only [gstep, limit_unpack, hcnt, if_false, ht]
         exact ⟨_, rfl⟩
-  | .nested g, b, its, x, h, _ => by
+  | .nested gid g, b, its, x, h, _ => by
     refine ⟨fun _ => ?_, fun hs => by simp [stopsAt] at hs⟩
     obtain ⟨hseq, hin⟩ := h.inner (x := x) (by simp)
     have hloop := loop_exact g (fun its' x' h' hef' => gstep_both g false its' x' h' hef')
       ((iterOf x).getD []) [] (by simpa using hin) rfl
-    have hval : valOfC true (.nested g) (its ++ [x]) = valTopC g (cutEvent g ((iterOf x).getD [])) := by
-      simp [valOfC, valTopC]
+    have hval : implOf (.nested gid g) (its ++ [x]) = valTopC g (cutEvent g ((iterOf x).getD [])) := by
+      simp [implOf, valTopC]
     rw [hval]
     simp only [valTopC, emptyOr, List.isEmpty_nil, if_true, treeOf_nil] at hloop
     cases x with
@@ -1225,10 +1367,21 @@ theorem groupEval_exact (s : GSpec) (items : List V) (h : Hyp false s items) :
 
 theorem obs_beq_ok (a b : V) : ((Obs.ok a : Obs) == Obs.ok b) = veq a b := rfl
 
+/-- no SKIP from a bare function / nested Group at all implies none below a key level -/
+theorem noSkipBelow_weaken : ∀ (s : GSpec) (its : List V), noSkipBelow true s its = true → noSkipBelow false s its = true
+  | .agg .., _, _ => rfl
+  | .list .., _, _ => rfl
+  | .fn _, _, _ => by simp [noSkipBelow]
+  | .dict _ _ _ sub, its, h => h
+  | .limit _ _ sub, its, h => noSkipBelow_weaken sub its h
+  | .nested _ g, its, h => by
+    simp only [noSkipBelow, Bool.and_eq_true] at h ⊢
+    exact ⟨by simp, h.2⟩
+
 theorem covered_spec (g : GSpec) (items : List V) (hwf : wfRun g items = true) (hc : covered g items = true) :
     (observe (groupEval g items) == Obs.ok (valOfTop g items)) = true := by
   simp only [covered, Bool.and_eq_true] at hc
-  rw [groupEval_exact g items ⟨hwf, hc.1.1, hc.1.2⟩]
+  rw [groupEval_exact g items ⟨hwf, hc.1.1, noSkipBelow_weaken g items hc.1.2⟩]
   exact hc.2
 
 theorem all_zip_map {α β : Type} (f : α → β) (p : α × β → Bool) :
